@@ -2,7 +2,11 @@
 # Build and run the repository's own test suite (guard off: there are no source hooks).
 # usage: baseline.sh [repo-dir]   (default /repo; the build dir is <repo>/_build)
 R=${1:-/repo}
-set -e
-[ -f "$R/_build/CMakeCache.txt" ] || cmake -G Ninja -S "$R" -B "$R/_build" -DCMAKE_BUILD_TYPE=RelWithDebInfo >/dev/null
-cmake --build "$R/_build" 2>&1 | tail -3
+[ -f "$R/_build/CMakeCache.txt" ] || cmake -G Ninja -S "$R" -B "$R/_build" -DCMAKE_BUILD_TYPE=RelWithDebInfo >/dev/null || exit 2
+if ! cmake --build "$R/_build" > "$R/_build/vp_build.log" 2>&1; then
+    tail -30 "$R/_build/vp_build.log"
+    echo "BUILD FAILED"
+    exit 2
+fi
+tail -1 "$R/_build/vp_build.log"
 ctest --test-dir "$R/_build" -j8 --timeout 900 2>&1 | tail -6
